@@ -40,6 +40,15 @@ LAYOUTS = {
         fed.SP2_EID: {"acs": [(POST, "https://sp.example.org/b/", 1, True), (REDIR, "https://sp2.example.org/r", 2, None)], "slo": [], "mni": []},
     },
 }
+# entities whose identifiers differ from a real SP's only in something a normalising step (strip, case folding) would remove; each registers a
+# consumer of its own - the real SP must never be answered there
+_COLLECT = "https://collector.example.net/acs"
+LAYOUTS["L3"] = dict(LAYOUTS["L1"])
+for _i, _eid in enumerate([fed.SP_EID + "\u00a0", fed.SP_EID + " ", "\u2003" + fed.SP_EID, fed.SP_EID.replace("https://sp.", "https://SP."), fed.SP_EID + "/"]):
+    LAYOUTS["L3"][_eid] = {"acs": [(POST, "%s/%d" % (_COLLECT, _i), 1, True), (REDIR, "%s/%d/r" % (_COLLECT, _i), 2, None)], "slo": [(POST, "%s/%d/slo" % (_COLLECT, _i))],
+                           "mni": [(SOAP, "%s/%d/mni" % (_COLLECT, _i))]}
+# ... and the same with the look-alikes in front of the real SP
+LAYOUTS["L4"] = dict([(k, v) for k, v in LAYOUTS["L3"].items() if k not in LAYOUTS["L1"]] + list(LAYOUTS["L1"].items()))
 
 
 def near_misses(url):
